@@ -6,18 +6,23 @@ TF == <<0, 255>>
 TAB == <<0, 65, 0, 66>>
 TAF == <<0, 65, 0, 255>>
 TS == <<216, 52, 221, 30>>     \* a surrogate pair (U+1D11E): one character, four bytes
+T3 == <<0, 102, 0, 102, 0, 105>>                       \* "ffi": three units, two bytes of constant prefix
+T3F == <<0, 102, 0, 102, 0, 255>>                      \* three units, the last byte carries
+T4 == <<216, 52, 221, 30, 0, 65, 0, 66>>               \* a surrogate pair and "AB": four units, four bytes of prefix
+T4F == <<0, 65, 0, 66, 216, 52, 221, 255>>             \* "AB" and a surrogate pair whose last byte carries (DDFF -> DE00)
 Targets == {TA, TF, TAB, TAF}
+LongTargets == {T3, T3F, T4, T4F}
 CodeVals == {0, 1, 255, 256, 257}
 Ranges == {<<0, 1>>, <<1, 1>>, <<255, 256>>, <<255, 257>>, <<256, 257>>, <<1, 0>>}
 Z == [t |-> "", lo |-> 0, hi |-> 0, tgt |-> <<>>, arr |-> <<>>]
-BfChars == {[Z EXCEPT !.t = "bfchar", !.lo = c, !.tgt = t] : c \in CodeVals, t \in Targets \cup {TS}}
-BfRanges == {[Z EXCEPT !.t = "bfrange", !.lo = r[1], !.hi = r[2], !.tgt = t] : r \in Ranges, t \in Targets}
+BfChars == {[Z EXCEPT !.t = "bfchar", !.lo = c, !.tgt = t] : c \in CodeVals, t \in Targets \cup {TS, T3}}
+BfRanges == {[Z EXCEPT !.t = "bfrange", !.lo = r[1], !.hi = r[2], !.tgt = t] : r \in Ranges, t \in Targets \cup LongTargets}
 BfArrs == {[Z EXCEPT !.t = "bfrarr", !.lo = r[1], !.hi = r[2], !.arr = a] : r \in Ranges, a \in {<<TA>>, <<TF, TAB>>, <<TAB, TA, TF>>}}
 Marks == {[Z EXCEPT !.t = "endcmap"], [Z EXCEPT !.t = "begincmap"]}
 MCEntries == BfChars \cup BfRanges \cup BfArrs \cup Marks
 \* a smaller alphabet for three-entry sequences in the quick tier
 SmallEntries == {e \in MCEntries : (e.t = "bfchar" => e.lo \in {1, 256} /\ e.tgt \in {TA, TAB})
-                                   /\ (e.t = "bfrange" => <<e.lo, e.hi>> \in {<<0, 1>>, <<255, 257>>} /\ e.tgt \in {TF, TAF})
+                                   /\ (e.t = "bfrange" => <<e.lo, e.hi>> \in {<<0, 1>>, <<255, 257>>} /\ e.tgt \in {TF, TAF, T3F, T4})
                                    /\ (e.t = "bfrarr" => <<e.lo, e.hi>> \in {<<0, 1>>, <<255, 257>>} /\ Len(e.arr) = 2)}
 MCCidDom == {0, 1, 2, 255, 256, 257, 258}
 ====
